@@ -36,8 +36,9 @@ type Analysis struct {
 	P        *core.Program
 	Reach    map[*ssa.Function]bool
 	Derived  map[ssa.Value]bool
-	heap     map[string]bool
-	retDeriv map[*ssa.Function]bool
+	Origins  map[ssa.Value]map[*ssa.Global]bool
+	heap     map[string]map[*ssa.Global]bool
+	retDeriv map[*ssa.Function]map[*ssa.Global]bool
 
 	Findings []Finding
 	Sites    []Site
@@ -121,7 +122,7 @@ func externalClass(fn *ssa.Function) (pkg, name string, pure bool) {
 
 // Run analyses the program.
 func Run(p *core.Program) *Analysis {
-	a := &Analysis{P: p, Reach: p.Reach, Derived: map[ssa.Value]bool{}, heap: map[string]bool{}, retDeriv: map[*ssa.Function]bool{},
+	a := &Analysis{P: p, Reach: p.Reach, Derived: map[ssa.Value]bool{}, Origins: map[ssa.Value]map[*ssa.Global]bool{}, heap: map[string]map[*ssa.Global]bool{}, retDeriv: map[*ssa.Function]map[*ssa.Global]bool{},
 		GlobalReaders: map[*ssa.Global][]string{}, GlobalWriters: map[*ssa.Global][]string{}, ExternalCalls: map[string][]string{},
 		onceInit: map[*ssa.Function]*ssa.Global{}}
 	a.findOnce()
@@ -160,12 +161,63 @@ func (a *Analysis) callees(fn *ssa.Function, site ssa.CallInstruction) []*ssa.Fu
 	return out
 }
 
+func (a *Analysis) originsOf(v ssa.Value) map[*ssa.Global]bool {
+	if g, ok := v.(*ssa.Global); ok {
+		return map[*ssa.Global]bool{g: true}
+	}
+	return a.Origins[v]
+}
+
+// OriginNames lists the package variables a value may derive from.
+func (a *Analysis) OriginNames(v ssa.Value) []string {
+	var out []string
+	for g := range a.originsOf(v) {
+		out = append(out, g.Name())
+	}
+	sort.Strings(out)
+	return out
+}
+
 func (a *Analysis) propagate() {
 	fns := a.funcs()
 	changed := true
-	mark := func(v ssa.Value) {
-		if v != nil && !a.Derived[v] {
-			a.Derived[v] = true
+	union := func(dst map[*ssa.Global]bool, src map[*ssa.Global]bool) bool {
+		ch := false
+		for g := range src {
+			if !dst[g] {
+				dst[g] = true
+				ch = true
+			}
+		}
+		return ch
+	}
+	// flow: dst derives from whatever src derives from
+	flow := func(dst, src ssa.Value) {
+		so := a.originsOf(src)
+		if len(so) == 0 {
+			return
+		}
+		m := a.Origins[dst]
+		if m == nil {
+			m = map[*ssa.Global]bool{}
+			a.Origins[dst] = m
+		}
+		if union(m, so) {
+			a.Derived[dst] = true
+			changed = true
+		}
+	}
+	flowSet := func(dst ssa.Value, so map[*ssa.Global]bool) {
+		if len(so) == 0 {
+			return
+		}
+		m := a.Origins[dst]
+		if m == nil {
+			m = map[*ssa.Global]bool{}
+			a.Origins[dst] = m
+		}
+		if union(m, so) {
+			a.Derived[dst] = true
 			changed = true
 		}
 	}
@@ -178,23 +230,29 @@ func (a *Analysis) propagate() {
 					case *ssa.Store:
 						if a.isDerived(x.Val) && pointerLike(x.Val.Type()) {
 							k := addrKey(x.Addr)
-							if !a.heap[k] {
-								a.heap[k] = true
+							if a.heap[k] == nil {
+								a.heap[k] = map[*ssa.Global]bool{}
+							}
+							if union(a.heap[k], a.originsOf(x.Val)) {
 								changed = true
 							}
 						}
 					case *ssa.Return:
 						for _, r := range x.Results {
-							if a.isDerived(r) && !a.retDeriv[fn] {
-								a.retDeriv[fn] = true
-								changed = true
+							if a.isDerived(r) {
+								if a.retDeriv[fn] == nil {
+									a.retDeriv[fn] = map[*ssa.Global]bool{}
+								}
+								if union(a.retDeriv[fn], a.originsOf(r)) {
+									changed = true
+								}
 							}
 						}
 					case *ssa.MakeClosure:
 						if cf, ok := x.Fn.(*ssa.Function); ok {
 							for i, bnd := range x.Bindings {
-								if a.isDerived(bnd) && i < len(cf.FreeVars) {
-									mark(cf.FreeVars[i])
+								if i < len(cf.FreeVars) {
+									flow(cf.FreeVars[i], bnd)
 								}
 							}
 						}
@@ -208,23 +266,20 @@ func (a *Analysis) propagate() {
 							args := com.Args
 							params := callee.Params
 							if com.IsInvoke() {
-								if len(params) > 0 && a.isDerived(com.Value) {
-									mark(params[0])
+								if len(params) > 0 {
+									flow(params[0], com.Value)
 								}
 								params = params[min(1, len(params)):]
 							}
 							for i, arg := range args {
-								if i < len(params) && a.isDerived(arg) {
-									mark(params[i])
+								if i < len(params) {
+									flow(params[i], arg)
 								}
 							}
-							// closure value itself carries bindings: handled at MakeClosure
 						}
-						if v, ok := ins.(ssa.Value); ok {
+						if v, ok := ins.(ssa.Value); ok && pointerLike(v.Type()) {
 							for _, callee := range a.callees(fn, ci) {
-								if a.retDeriv[callee] && pointerLike(v.Type()) {
-									mark(v)
-								}
+								flowSet(v, a.retDeriv[callee])
 							}
 						}
 					}
@@ -234,75 +289,57 @@ func (a *Analysis) propagate() {
 					}
 					switch x := v.(type) {
 					case *ssa.FieldAddr:
-						if a.isDerived(x.X) {
-							mark(v)
-						}
+						flow(v, x.X)
 					case *ssa.IndexAddr:
-						if a.isDerived(x.X) {
-							mark(v)
-						}
+						flow(v, x.X)
 					case *ssa.Slice:
-						if a.isDerived(x.X) && pointerLike(v.Type()) {
-							mark(v)
+						if pointerLike(v.Type()) {
+							flow(v, x.X)
 						}
 					case *ssa.Index:
-						if a.isDerived(x.X) && pointerLike(v.Type()) {
-							mark(v)
+						if pointerLike(v.Type()) {
+							flow(v, x.X)
 						}
 					case *ssa.Lookup:
-						if a.isDerived(x.X) && pointerLike(v.Type()) {
-							mark(v)
+						if pointerLike(v.Type()) {
+							flow(v, x.X)
 						}
 					case *ssa.Field:
-						if a.isDerived(x.X) && pointerLike(v.Type()) {
-							mark(v)
+						if pointerLike(v.Type()) {
+							flow(v, x.X)
 						}
 					case *ssa.Phi:
 						for _, e := range x.Edges {
-							if a.isDerived(e) {
-								mark(v)
-							}
+							flow(v, e)
 						}
 					case *ssa.ChangeType:
-						if a.isDerived(x.X) {
-							mark(v)
-						}
+						flow(v, x.X)
 					case *ssa.Convert:
-						if a.isDerived(x.X) && pointerLike(v.Type()) {
-							mark(v)
+						if pointerLike(v.Type()) {
+							flow(v, x.X)
 						}
 					case *ssa.ChangeInterface:
-						if a.isDerived(x.X) {
-							mark(v)
-						}
+						flow(v, x.X)
 					case *ssa.MakeInterface:
-						if a.isDerived(x.X) {
-							mark(v)
-						}
+						flow(v, x.X)
 					case *ssa.TypeAssert:
-						if a.isDerived(x.X) && pointerLike(v.Type()) {
-							mark(v)
+						if pointerLike(v.Type()) {
+							flow(v, x.X)
 						}
 					case *ssa.Extract:
-						if a.isDerived(x.Tuple) && pointerLike(v.Type()) {
-							mark(v)
+						if pointerLike(v.Type()) {
+							flow(v, x.Tuple)
 						}
 					case *ssa.Next:
-						if a.isDerived(x.Iter) && pointerLike(v.Type()) {
-							mark(v)
+						if pointerLike(v.Type()) {
+							flow(v, x.Iter)
 						}
 					case *ssa.Range:
-						if a.isDerived(x.X) {
-							mark(v)
-						}
+						flow(v, x.X)
 					case *ssa.UnOp:
-						if x.Op.String() == "*" {
-							if a.isDerived(x.X) && pointerLike(v.Type()) {
-								mark(v)
-							}
-							if pointerLike(v.Type()) && a.heap[addrKey(x.X)] {
-								mark(v)
-							}
+						if x.Op.String() == "*" && pointerLike(v.Type()) {
+							flow(v, x.X)
+							flowSet(v, a.heap[addrKey(x.X)])
 						}
 					}
 				}
@@ -357,6 +394,16 @@ func (a *Analysis) ok(rule string, fn *ssa.Function, ins ssa.Instruction, expr, 
 func describe(v ssa.Value) string {
 	if g := rootGlobal(v); g != nil {
 		return g.Name()
+	}
+	return v.Name() + ":" + v.Type().String()
+}
+
+func (a *Analysis) describe(v ssa.Value) string {
+	if g := rootGlobal(v); g != nil {
+		return g.Name()
+	}
+	if o := a.OriginNames(v); len(o) > 0 {
+		return strings.Join(o, ",")
 	}
 	return v.Name() + ":" + v.Type().String()
 }
@@ -529,6 +576,11 @@ func (a *Analysis) rules() {
 			a.ok("R1", fn, ins, what+" "+describe(target), "target is not derived from package state")
 			return
 		}
+		for g := range a.originsOf(target) {
+			if g.Pkg == a.P.SSAPkg {
+				a.GlobalWriters[g] = appendUniq(a.GlobalWriters[g], core.QualName(fn))
+			}
+		}
 		if og, ok := a.onceInit[fn]; ok {
 			if g := rootGlobal(target); g != nil {
 				onceWritten[g] = og
@@ -536,7 +588,7 @@ func (a *Analysis) rules() {
 				return
 			}
 		}
-		a.add("R1", fn, ins, what+" "+describe(target), fmt.Sprintf("API-reachable %s whose target derives from package-level state (%s): shared mutable state breaks thread-safety / history-independence", what, describe(target)))
+		a.add("R1", fn, ins, what+" "+a.describe(target), fmt.Sprintf("API-reachable %s whose target derives from package-level state (%s): shared mutable state breaks thread-safety / history-independence", what, a.describe(target)))
 	}
 
 	for _, fn := range a.funcs() {
